@@ -29,6 +29,10 @@ CHUNK = 4
 
 def cases(tier, seed):
     out = []
+    for core in (None, "core", "pk.core"):
+        for second in (False, True):
+            for tamper in ("append", "truncate"):
+                out.append({"kind": "stale-core", "core": core, "second_client": second, "tamper": tamper})
     for c in c01.cases(tier, seed):
         if c["kind"] == "graph":
             if tier == "quick" and c["menu"] != "prefix":
@@ -47,17 +51,36 @@ def shipped_core_dir():
     return os.path.join(os.path.dirname(os.path.abspath(pyopenapi_gen.__file__)), "core")
 
 
-def check_project(doc, out_pkg="cli", core_pkg=None, naming="operationId"):
+def check_project(doc, out_pkg="cli", core_pkg=None, naming="operationId", stale=None):
     with sandbox.scratch() as d:
         root = os.path.join(d, "proj")
         files, err = sandbox.generate(doc, root, output_package=out_pkg, core_package=core_pkg, naming=naming)
         if err is not None:
             return None
+        if stale is not None:
+            # history: the core directory already holds runtime modules that differ (older release / hand edit); a forced
+            # regeneration (of this or of a second client) must leave the shipped runtime byte for byte
+            core0 = pkgcheck.pkg_dir(root, core_pkg or (out_pkg + ".core"))
+            for sub in RUNTIME_MODULES:
+                p = os.path.join(core0, sub)
+                if os.path.exists(p):
+                    if stale["tamper"] == "append":
+                        with open(p, "a") as f:
+                            f.write("\n# stale copy\n")
+                    else:
+                        open(p, "w").close()
+            if stale["second_client"]:
+                out_pkg = out_pkg.rsplit(".", 1)[0] + ".other" if "." in out_pkg else "other"
+            files, err = sandbox.generate(doc, root, output_package=out_pkg, core_package=core_pkg, naming=naming, force=True)
+            if err is not None:
+                return None
         core = core_pkg or (out_pkg + ".core")
         found = []
         bad, nfiles, nimports = pkgcheck.scan_imports(root, out_pkg, core)
         for rel, mod, why in bad:
             loc = pkgcheck.location_class(rel, out_pkg, core)
+            if why.endswith("was not emitted") and loc != "core":
+                continue  # a dangling import between generated modules is C01's subject (the package does not import)
             found.append((f"C12|import-scan|{loc}|{why}|{mod.split(chr(46))[0]}|{os.path.basename(rel)}", f"{rel} imports {mod}"))
         # runtime under the blocker: anything that needs the generator fails to import
         res = pkgcheck.import_verdict(root, out_pkg, core)
@@ -92,6 +115,12 @@ def run_case(case):
         doc = docs.get(case["doc"], os.environ.get("VERIF_REPO", "/repo"))
         label = f"layout|{case['doc']}|out={case['out']}|core={case['core']}|naming={case['naming']}"
         r = check_project(doc, case["out"], case["core"], case["naming"])
+    elif k == "stale-core":
+        doc = docs.get("petstore")
+        label = f"stale-core|core={case['core']}|second_client={case['second_client']}|tamper={case['tamper']}"
+        if case["core"] is None and case["second_client"]:
+            return {"findings": [], "outcome": "n/a", "nontrivial": None}
+        r = check_project(doc, "pk.cli" if case["core"] == "pk.core" else "cli", case["core"], stale=case)
     elif k == "graph":
         doc = graphs.doc_of(case)
         label = f"graph|{case['menu']}|{graphs.describe(case)}"
